@@ -348,12 +348,15 @@ func (r *R) writeCrumb(slot int, stream string, index int) {
 }
 
 // CaseCPUBudget arms a guard for cases that never finish (a goroutine of the code under test
-// spinning, or a bubble that can never become idle): a case that is still running after the
-// PROCESS has burnt more than sec CPU-seconds since the case started is reported as a violation
-// (key given by the monitor) with the stacks of the goroutines that are running or runnable, the
-// result is written and the process exits, because such a case cannot be waited for. CPU time,
-// not wall-clock: a loaded machine slows the process down and the budget with it. A normal case
-// takes milliseconds, so sec is chosen in the hundreds.
+// spinning, or a bubble that can never become idle): a case that is still running after its
+// SHARE of the process's CPU time exceeds sec seconds is reported as a violation (key given by
+// the monitor) with the stacks of the goroutines that are running or runnable, the result is
+// written and the process exits, because such a case cannot be waited for. The share: every
+// 250 ms the CPU time the process burnt since the last tick is divided equally among the cases
+// running at that moment (with CasesParallel sixteen run at once, so the process's CPU time as
+// such says nothing about one case). CPU time, not wall-clock: a loaded machine slows the
+// process down and the budget with it. A normal case takes milliseconds, a heavy one (megabytes
+// of input under the race detector) seconds, so sec is chosen in the hundreds.
 func (r *R) CaseCPUBudget(sec float64, key string) {
 	r.mu.Lock()
 	first := r.budget == 0
@@ -363,17 +366,22 @@ func (r *R) CaseCPUBudget(sec float64, key string) {
 		return
 	}
 	go func() {
+		last := processCPU()
 		for {
 			time.Sleep(250 * time.Millisecond)
 			now := processCPU()
 			r.mu.Lock()
 			var late *Case
-			for c, t0 := range r.running {
-				if now-t0 > r.budget {
-					late = c
-					break
+			if n := len(r.running); n > 0 {
+				d := (now - last) / float64(n)
+				for c := range r.running {
+					r.running[c] += d
+					if r.running[c] > r.budget {
+						late = c
+					}
 				}
 			}
+			last = now
 			key, done := r.budgetKey, r.finished
 			r.mu.Unlock()
 			if done {
@@ -397,7 +405,7 @@ func (r *R) CaseCPUBudget(sec float64, key string) {
 			if len(busy) > 6 {
 				busy = busy[:6]
 			}
-			late.Violation(key, "case %s/%d has not finished although the process has burnt more than %.0f CPU-seconds since it started (a normal case takes milliseconds); goroutines that are running or runnable in golang.org/x/net code:\n%s", late.Stream, late.Index, r.budget, strings.Join(busy, "\n\n"))
+			late.Violation(key, "case %s/%d has not finished although its share of the process's CPU time exceeds %.0f seconds (a normal case takes milliseconds); goroutines that are running or runnable in golang.org/x/net code:\n%s", late.Stream, late.Index, r.budget, strings.Join(busy, "\n\n"))
 			r.exitAbn = true
 			r.Finish()
 			os.Exit(1)
@@ -421,7 +429,7 @@ func (r *R) runCase(stream string, i, slot int, fn func(c *Case)) {
 		if r.running == nil {
 			r.running = map[*Case]float64{}
 		}
-		r.running[c] = processCPU()
+		r.running[c] = 0
 	}
 	r.mu.Unlock()
 	defer func() {
